@@ -400,3 +400,38 @@ class Report(object):
             self.pid, self.tier, 'HELD' if not new else 'VIOLATED', len(new), len(seen_known), len(self.drift),
             time.time() - self.t0))
         return 1 if new else 0
+
+
+# --------------------------------------------------------------------------- record validation (F-specs)
+
+def validate_records(specdir, scratch, module, records, nshards=None, cfg=None, workers_each=1, heap='3g',
+                     timeout=3000, tag='rec', env=None):
+    """Each record is judged independently by TLC (module must follow the Trace_* record idiom:
+    Init == tid \\in DOMAIN Trace, invariant prints "@@{tid, kind, clauses,...}" for failing records).
+    Returns (reports, tlc_results); reports carry 'index' = position in `records`."""
+    records = list(records)
+    if not records:
+        return [], []
+    nshards = nshards or NCPU
+    idxs = shard(list(range(len(records))), nshards)
+    envs = []
+    for k, idx in enumerate(idxs):
+        p = scratch.file('%s_%s_%d.ndjson' % (tag, module, k))
+        write_ndjson(p, (records[q] for q in idx))
+        e = {'TRACE_FILE': p}
+        if env:
+            e.update(env)
+        envs.append(e)
+    outs = run_tlc_shards(specdir, module, cfg or (module + '.cfg'), envs, workers_each=workers_each, heap=heap,
+                          timeout=timeout)
+    reports = []
+    for idx, r in zip(idxs, outs):
+        if r.distinct != len(idx):
+            raise MachineryError('%s: shard not fully consumed (%d states for %d records)' % (module, r.distinct, len(idx)))
+        for pr in r.printed:
+            pr['index'] = idx[pr['tid'] - 1]
+            reports.append(pr)
+    return reports, outs
+
+
+RECORD_CFG = 'SPECIFICATION Spec\nINVARIANT Checked\nCHECK_DEADLOCK FALSE\n'
